@@ -207,6 +207,12 @@ def check(prop, tier, verbose=False):
         if serr:
             units.append({"cid": "static:" + prop, "ok": False, "error": "static analysis crashed: " + serr, "wall": 0})
         canaries = r_can.get()
+        # a canary that was not refuted is run once more, alone (load-induced solver timeouts must not decide it)
+        for k, (job, c) in enumerate(zip(jobs_canary, canaries)):
+            if c["status"] not in ("refuted", "skipped"):
+                c2 = _canary_worker(job)
+                c2["first_attempt"] = c["status"]
+                canaries[k] = c2
     return report(prop, tier, seed, units, canaries, bounded, berr, pm, t_start, verbose)
 
 
@@ -254,6 +260,12 @@ def report(prop, tier, seed, units, canaries, bounded, berr, pm, t_start, verbos
                 continue
             violations.append(r)
         else:
+            kf = match_finding(r, known)
+            if kf is not None:
+                # an obligation of a recorded finding class that the solver left open this run: the finding stands on its
+                # replayed witness (below), the open verdict is noted in the evidence and does not change the exit code
+                known_hit.setdefault(kf["id"], []).append(r["oid"] + " (undecided this run)")
+                continue
             undecided.append(r)
     # bounded layer results
     b_viol = []
